@@ -5,13 +5,15 @@
    whose value types are non-trivially constructible exactly when non-trivially destructible
    (C06_step_turns_held_objects_into_held_objects, C06_whole_life_objects_balanced); the objects
    of a ContiguousElement (the C06_element_... theorems).
+   On lists without a VaryingSize parameter NO restriction on the history is left
+   (C06_whole_life_fixed_lists_every_history, FixedLife.v).
    PARTIAL: erase with elements behind the erased ones on VaryingSize lists of non-trivial types
    (the recorded finding when source and target overlap), a no-duplicates statement over the
    whole event log, copy / move between vectors: correspondence (instrumented value types,
    registry) and the live-object oracle. *)
-From Coq Require Import ZArith List Bool.
+From Coq Require Import ZArith List Bool Lia.
 From Coq Require Import Permutation.
-From Cntgs Require Import Base Layout Mem Vector Spec Rep LifeThm StableThm NtRefine LifeHist Proxy Elem ElemThm ElemLife.
+From Cntgs Require Import Base Layout Mem Vector Spec Rep LifeThm StableThm NtRefine LifeHist FixedLife Proxy Elem ElemThm ElemLife.
 Import ListNotations.
 Local Open Scope Z_scope.
 
@@ -89,6 +91,76 @@ Theorem C06_whole_life_objects_balanced : forall L cap budget fixed aid junk bid
   Permutation (keep born evs) (keep died evs).
 Proof. exact whole_life_objects_balanced. Qed.
 Print Assumptions C06_whole_life_objects_balanced.
+
+(* ... and with erase() in the middle on lists WITHOUT a VaryingSize parameter (FixedLife.v):
+   every following element is move-constructed into its new slot and its source destroyed;
+   what was live in [to, n) dies, what is live afterwards in [to, n - removed) is born
+   (lt_okx = (no VaryingSize) \/ lt_ok) *)
+Theorem C06_whole_life_objects_balanced_weaker_restriction : forall L cap budget fixed aid junk bid tbid h,
+  wf_plist L = true -> (forall mv p, In p L -> ntc mv p = ntd p) -> cft L = true ->
+  0 <= cap -> Forall (fun c => 0 <= c) fixed ->
+  let v0 := fst (mkvec L cap budget fixed aid junk bid tbid) in
+  let s0 := {| s_cap := cap; s_elems := [] |} in
+  shist_valid L (fixed_counts L fixed) s0 h -> lt_hist_okx L s0 h ->
+  let r := lrun L junk (v0, S (Nat.max bid tbid)) h in
+  let evs := snd r ++ destroy L (fst (fst r)) in
+  Permutation (keep born evs) (keep died evs).
+Proof. exact whole_life_objects_balanced_x. Qed.
+Print Assumptions C06_whole_life_objects_balanced_weaker_restriction.
+
+Theorem C06_whole_life_fixed_lists_every_history : forall L cap budget fixed aid junk bid tbid h,
+  wf_plist L = true -> has_varying L = false -> (forall mv p, In p L -> ntc mv p = ntd p) -> cft L = true ->
+  0 <= cap -> Forall (fun c => 0 <= c) fixed ->
+  let v0 := fst (mkvec L cap budget fixed aid junk bid tbid) in
+  let s0 := {| s_cap := cap; s_elems := [] |} in
+  shist_valid L (fixed_counts L fixed) s0 h ->
+  let r := lrun L junk (v0, S (Nat.max bid tbid)) h in
+  let evs := snd r ++ destroy L (fst (fst r)) in
+  Permutation (keep born evs) (keep died evs).
+Proof. exact whole_life_fixed_list_every_history. Qed.
+Print Assumptions C06_whole_life_fixed_lists_every_history.
+
+(* one step: the objects the vector holds before, plus what the operation constructs, are
+   what it destroys plus the objects the vector holds afterwards *)
+Theorem C06_step_balance_weaker_restriction : forall L, wf_plist L = true ->
+  (forall mv p, In p L -> ntc mv p = ntd p) -> cft L = true ->
+  forall junk v nb s o offs,
+  RepO L v (s_elems s) offs -> v_cap v = s_cap s -> svalid L (fixed_counts L (v_fixed v)) s o -> lt_okx L s o ->
+  (exists b0, v_bid v = Some b0 /\ (b0 < nb)%nat) ->
+  let v' := fst (fst (lstep L junk (v, nb) o)) in
+  let nb' := snd (fst (lstep L junk (v, nb) o)) in
+  let evs := snd (lstep L junk (v, nb) o) in
+  Rep L v' (s_elems (sstep s o)) /\ v_cap v' = s_cap (sstep s o) /\ v_fixed v' = v_fixed v /\
+  (exists b0, v_bid v' = Some b0 /\ (b0 < nb')%nat) /\
+  Permutation (live L v (s_elems s) ++ keep born evs) (keep died evs ++ live L v' (s_elems (sstep s o))).
+Proof. exact lstep_balance_x. Qed.
+Print Assumptions C06_step_balance_weaker_restriction.
+
+(* satisfiable: (uint32, FixedSize<Tracked 8-byte type> x 2), four elements, erase(1),
+   erase(0, 1), reserve: 8 constructions by emplace_back, 2*2 + 2*2 by the two erases,
+   2*2 by the relocation *)
+Definition c06fL : list param :=
+  [ {| pk := Plain; psz := 4; pal := 4; pty := TUInt |};
+    {| pk := Fixed; psz := 8; pal := 8; pty := TTrk |} ].
+Definition c06ft (b : Z) : tuple := [[[b; 0; 0; 0]]; [[b; 1; 0; 0; 0; 0; 0; 0]; [b; 2; 0; 0; 0; 0; 0; 0]]].
+Definition c06fH : list sop :=
+  [SEmplace (c06ft 1); SEmplace (c06ft 2); SEmplace (c06ft 3); SEmplace (c06ft 4); SErase 1; SEraseRange 0 1; SReserve 6 0].
+Example C06_whole_life_fixed_lists_applies :
+  wf_plist c06fL = true /\ has_varying c06fL = false /\ all_triv c06fL = false /\
+  (forall mv p, In p c06fL -> ntc mv p = ntd p) /\ cft c06fL = true /\
+  shist_valid c06fL (fixed_counts c06fL [2]) {| s_cap := 4; s_elems := [] |} c06fH /\
+  ~ lt_hist_ok {| s_cap := 4; s_elems := [] |} c06fH /\
+  (let r := lrun c06fL (fun _ => 170) (fst (mkvec c06fL 4 0 [2] 0 (fun _ => 170) 0%nat 1%nat), 2%nat) c06fH in
+   length (keep born (snd r)) = 20%nat /\
+   length (keep died (snd r ++ destroy c06fL (fst (fst r)))) = 20%nat).
+Proof.
+  split; [reflexivity|]. split; [reflexivity|]. split; [reflexivity|]. split.
+  { intros mv p [<-|[<-|[]]]; destruct mv; reflexivity. }
+  split; [reflexivity|]. split; [|split].
+  - cbn. repeat split; try lia; try discriminate; repeat constructor.
+  - cbn. intros (_ & _ & _ & _ & H & _). lia.
+  - vm_compute. split; reflexivity.
+Qed.
 
 (* ---------- the objects of a ContiguousElement ----------
    An element constructed from a reference (value_type{ref}: copy form, value_type{std::move(ref)}:
